@@ -17,10 +17,14 @@ package graph
 //@   ensures result0 != nil
 //@   ensures vset(result0) != 0 && (vset(ctx) != 0 ==> vset(result0) == vset(ctx))
 
-// ForkVisited: a context with a copy of the visited set (its own set object); no set stays no set
+// ForkVisited: a context with a copy of the visited set (its own set object); no set stays no set.
+// forkctr counts the copies made so far (it only grows: ghostvar ... monotone), forkid(result)
+// is the number of the copy a context carries: two contexts with different numbers carry
+// different sets.
+//@ ghostvar forkctr monotone
 //@ func ForkVisited
 //@   trusted
-//@   pure
+//@   modifies forkctr
 //@   ensures result != nil
-//@   ensures vset(ctx) == 0 ==> vset(result) == 0
-//@   ensures vset(ctx) != 0 ==> vset(result) != 0 && vset(result) != vset(ctx)
+//@   ensures vset(ctx) == 0 ==> vset(result) == 0 && forkctr == old(forkctr)
+//@   ensures vset(ctx) != 0 ==> vset(result) != 0 && vset(result) != vset(ctx) && forkctr == old(forkctr) + 1 && forkid(result) == forkctr
